@@ -7,7 +7,7 @@ wt=$(mktemp -d /tmp/verif_seed.XXXXXX); rmdir "$wt"
 git -C /repo worktree add -q --detach "$wt" HEAD || exit 2
 trap 'git -C /repo worktree remove --force "$wt" 2>/dev/null; rm -rf "$wt"' EXIT
 tgt=$(cat "$d/demo_target.txt" 2>/dev/null | head -1 | tr -d '[:space:]'); tgt=${tgt:-src/lib.rs}
-feat=$(sed -n 2p "$d/demo_target.txt" 2>/dev/null | grep -o 'features: *[a-z-]*' | awk '{print $2}')
+feat=$(sed -n 2p "$d/demo_target.txt" 2>/dev/null | grep -oE 'features: *(postcard-codec|bincode-codec|std|serde)' | awk '{print $2}')
 FEAT=""; [ -n "$feat" ] && FEAT="--features $feat"
 inject() { python3 - "$wt/$tgt" "$d/demo.rs" <<'PY'
 import sys
